@@ -4,7 +4,20 @@ Correspondence: the clause / constraint lists produced by cnfgen (CNF and OPB
 classes) are compared, in order, with the lists produced by the extracted Coq
 model (Linear.v, Mapping.v) on the same arguments.  When they differ, the
 implementation's output is evaluated on every assignment against the plain
-arithmetic meaning to find a failing input for the property itself."""
+arithmetic meaning to find a failing input for the property itself.
+
+Streams added by the strengthening round (notes/LARGE_STREAMS.md), run FIRST as a corpus:
+  thresholds-*  add_parity / add_linear / majorities on 15..18 literals (up to 2^17 clauses,
+                compared in order), '!=' and '==' on 17..20 literals, literal lists of length
+                63..1025 with the operators/constants whose output stays small, literal VALUES
+                255..1025 (fresh int objects, so that `is` and `==` differ);
+  shapes-*      wide lists with repeated literals and opposite pairs, given as list / tuple /
+                range / generator;
+  history-*     one formula object receiving a random sequence of builder calls (the same
+                argument object reused), compared with the concatenation of the model outputs.
+For more than 14 variables the failing-input search uses structured assignments (all true,
+all false, prefixes, single flips), assignments directed at the clauses on which the two
+outputs differ, and random ones."""
 import itertools
 
 from lib import cmd, outcome, is_error, import_impl, lit_true, cnf_sat, pb_sat, assignments
@@ -15,7 +28,9 @@ META = dict(
     text='Machine-checked theorems state, for every literal list, operator, integer constant, mapping shape and assignment, '
          'that the CNF and pseudo-Boolean encodings built by the model hold exactly when the stated arithmetic/functional '
          'condition holds; the model is tied to the code by comparing, in order, the clauses/constraints cnfgen produces with '
-         'those of the extracted model on enumerated and seeded-random arguments (list, tuple, range, generator).',
+         'those of the extracted model on enumerated and seeded-random arguments (list, tuple, range, generator), including '
+         'lists of 15-20 literals (up to 2^17 clauses), lists of 63-1025 literals, literal values beyond 256 and 1000, and '
+         'sequences of calls on one formula object.',
     note='Trusted: Coq kernel, extraction (ExtrOcamlBasic/ExtrOcamlString), OCaml driver, the harness. The model is hand-written; '
          'agreement with the code is checked only on the arguments the run enumerates (see evidence input_distribution). '
          'Theorems for <=, <, ==, != and parity assume no literal is 0 (cnfgen rejects 0 under check=True).',
@@ -55,11 +70,154 @@ def lit_lists(ctx, quick):
     return out
 
 
-def meaning_fails_cnf(lits, op_fun, clauses):
+
+# --------------------------------------------------------------------------
+# failing-input search beyond 14 variables: structured, directed and random assignments
+# --------------------------------------------------------------------------
+def _val(a, l):
+    return a[l] if l > 0 else not a[-l]
+
+
+def eval_cnf(a, clauses):
+    for c in clauses:
+        for l in c:
+            if a[l] if l > 0 else not a[-l]:
+                break
+        else:
+            return False
+    return True
+
+
+def eval_opb(a, constraints):
+    for c in constraints:
+        s = sum(co for (co, l) in c[:-2] if _val(a, l))
+        if not {'>=': s >= c[-1], '==': s == c[-1]}.get(c[-2], False):
+            return False
+    return True
+
+
+def _hashable(c):
+    return tuple(tuple(x) if isinstance(x, (list, tuple)) else x for x in c)
+
+
+def clip(xs, keep=60):
+    """a big clause list is kept in a replay file as its length, its head and its tail"""
+    if not isinstance(xs, list) or len(xs) <= 2 * keep:
+        return xs
+    return dict(length=len(xs), head=xs[:keep], tail=xs[-keep:])
+
+
+def first_difference(a, b):
+    n = min(len(a), len(b))
+    for i in range(n):
+        if _hashable(a[i]) != _hashable(b[i]):
+            return dict(index=i, implementation=a[i], model=b[i])
+    if len(a) != len(b):
+        return dict(index=n, implementation_length=len(a), model_length=len(b))
+    return None
+
+
+def sampled_witness(lits, op_fun, impl, model, kind, seed=0, budget_s=25.0):
+    """assignment on which `impl` (clauses or constraints) and the arithmetic meaning of `lits`
+    differ; candidates: structured ones, ones that falsify a clause/constraint on which impl and
+    model differ (the rest completed in several ways), random ones"""
+    import random
+    import time
+    rng = random.Random(seed)
+    t0 = time.time()
+    lits_of = (lambda c: list(c)) if kind == 'cnf' else (lambda c: [l for (_, l) in c[:-2]])
+    ev = eval_cnf if kind == 'cnf' else eval_opb
+    vs = sorted({abs(l) for l in lits} | {abs(l) for c in impl for l in lits_of(c)})
+    if not vs:
+        vs = []
+    top = (max(vs) if vs else 0) + 1
+
+    def blank(v):
+        a = [v] * top
+        return a
+
+    def lit_fill(a, free, value):
+        """make the literals of `lits` over the free variables true/false (first occurrence wins)"""
+        seen = set()
+        for l in lits:
+            if abs(l) in free and abs(l) not in seen:
+                seen.add(abs(l))
+                a[abs(l)] = (l > 0) == value
+        return a
+
+    def candidates():
+        yield blank(False)
+        yield blank(True)
+        allv = set(vs)
+        yield lit_fill(blank(False), allv, True)
+        yield lit_fill(blank(False), allv, False)
+        n = len(lits)
+        # prefixes / suffixes of true literals: every value of the sum is reached
+        for j in range(n + 1):
+            a = lit_fill(blank(False), allv, False)
+            for l in lits[:j]:
+                a[abs(l)] = l > 0
+            yield a
+            a = lit_fill(blank(False), allv, False)
+            for l in lits[n - j:]:
+                a[abs(l)] = l > 0
+            yield a
+        # directed: falsify (or put at the boundary) what only one side contains
+        si = {_hashable(c) for c in impl}
+        sm = {_hashable(c) for c in model}
+        only = [c for c in impl if _hashable(c) not in sm][:40] + [c for c in model if _hashable(c) not in si][:40]
+        for c in only:
+            cl = lits_of(c)
+            fixed = {abs(l) for l in cl}
+            free = set(vs) - fixed
+            if kind == 'cnf' or (c[-2] == '>=' and c[-1] == 1):
+                targets = [0]
+            else:
+                targets = [c[-1] - 1, c[-1], c[-1] + 1]
+            for t in targets:
+                base = blank(False)
+                for i, l in enumerate(cl):
+                    base[abs(l)] = (l > 0) == (i < t)
+                for fill in ('lt', 'lf', 'vt', 'vf', 'r', 'r', 'r', 'r'):
+                    a = list(base)
+                    if fill == 'lt':
+                        lit_fill(a, free, True)
+                    elif fill == 'lf':
+                        lit_fill(a, free, False)
+                    else:
+                        for v in free:
+                            a[v] = True if fill == 'vt' else False if fill == 'vf' else rng.random() < 0.5
+                    yield a
+        # single flips
+        for v in vs[:64]:
+            a = blank(False)
+            a[v] = True
+            yield a
+            a = blank(True)
+            a[v] = False
+            yield a
+        for _ in range(300):
+            p = rng.choice([0.1, 0.3, 0.5, 0.7, 0.9])
+            a = blank(False)
+            for v in vs:
+                a[v] = rng.random() < p
+            yield a
+
+    for a in candidates():
+        want = op_fun(sum(1 for l in lits if _val(a, l)))
+        got = ev(a, impl)
+        if want != got:
+            return {'assignment': {str(v): a[v] for v in vs}, 'arithmetic_condition': want, 'constraints_hold': got}
+        if time.time() - t0 > budget_s:
+            break
+    return None
+
+
+def meaning_fails_cnf(lits, op_fun, clauses, model=None):
     """search an assignment on which the clause list and the arithmetic meaning differ"""
     vs = sorted({abs(l) for l in lits} | {abs(l) for c in clauses for l in c})
     if len(vs) > 14:
-        return None
+        return sampled_witness(lits, op_fun, clauses, model or [], 'cnf')
     n = max(vs) if vs else 0
     idx = {v: i for i, v in enumerate(vs)}
     for bits in range(1 << len(vs)):
@@ -71,10 +229,10 @@ def meaning_fails_cnf(lits, op_fun, clauses):
     return None
 
 
-def meaning_fails_opb(lits, op_fun, constraints):
+def meaning_fails_opb(lits, op_fun, constraints, model=None):
     vs = sorted({abs(l) for l in lits} | {abs(l) for c in constraints for (_, l) in c[:-2]})
     if len(vs) > 14:
-        return None
+        return sampled_witness(lits, op_fun, constraints, model or [], 'opb')
     idx = {v: i for i, v in enumerate(vs)}
     for bits in range(1 << len(vs)):
         a = {v: bool((bits >> idx[v]) & 1) for v in vs}
@@ -95,6 +253,384 @@ def pbc_to_py(c):
     return [tuple(t) for t in terms] + [op, deg]
 
 
+# --------------------------------------------------------------------------
+# thresholds / shapes / history streams (notes/LARGE_STREAMS.md)
+# --------------------------------------------------------------------------
+THRESHOLD_SIZES = [63, 64, 65, 127, 128, 129, 255, 256, 257, 258, 300, 1000, 1025]
+THRESHOLD_VALUES = [15, 16, 17, 63, 64, 65, 127, 128, 129, 255, 256, 257, 258, 300, 1000, 1025]
+
+
+def fresh(lits):
+    """equal values as DISTINCT int objects (CPython shares ints only up to 256)"""
+    return [int(str(l)) for l in lits]
+
+
+def wide_lits(rng, n, kind):
+    if kind == 'consecutive':
+        return list(range(1, n + 1))
+    if kind == 'consecutive-from-250':
+        return list(range(250, 250 + n))
+    if kind == 'mixed':
+        return [rng.choice([1, -1]) * v for v in rng.sample(range(1, 3 * n + 2), n)]
+    if kind == 'mixed-large-values':
+        pool = rng.sample(range(240, 240 + 4 * n), n - 3) + [256, 257, 1000]
+        rng.shuffle(pool)
+        return [rng.choice([1, -1]) * v for v in pool]
+    if kind == 'repeated':
+        l = [rng.choice([1, -1]) * v for v in rng.sample(range(1, 2 * n), n - 2)]
+        l.insert(rng.randrange(n - 1), l[0])
+        l.insert(rng.randrange(n), l[-1])
+        return l
+    if kind == 'opposite':
+        l = [rng.choice([1, -1]) * v for v in rng.sample(range(1, 2 * n), n - 2)]
+        l.insert(rng.randrange(n - 1), -l[0])
+        l.append(-l[1])
+        return l
+    if kind == 'repeated-large-values':
+        l = [rng.choice([1, -1]) * v for v in rng.sample(range(257, 257 + 2 * n), n - 2)]
+        l.insert(rng.randrange(n - 1), l[0])
+        l.insert(rng.randrange(n), -l[-1])
+        return l
+    raise KeyError(kind)
+
+
+def call_builder(F, fclass, call, arg, *rest):
+    """one public builder call on formula F (CNF or OPB object)"""
+    if call == 'add_linear':
+        op, k = rest
+        if fclass == 'CNF':
+            return F.add_linear(arg, op, k)
+        return {'<=': F.cardinality_leq, '>=': F.cardinality_geq, '==': F.cardinality_eq, '!=': F.cardinality_neq,
+                '<': lambda l, v: F.add_constraint([(1, x) for x in l] + ['<', v]),
+                '>': lambda l, v: F.add_constraint([(1, x) for x in l] + ['>', v])}[op](arg, k)
+    if call == 'add_parity':
+        return F.add_parity(arg, rest[0])
+    if call == 'add_clause':
+        return F.add_clause(arg)
+    return getattr(F, call)(arg)
+
+
+def model_cmd(fclass, call, lits, *rest):
+    pre = 'add_' if fclass == 'CNF' else 'opb_'
+    if call == 'add_linear':
+        return cmd(pre + 'linear', lits, rest[0], rest[1])
+    if call == 'add_parity':
+        return cmd(pre + 'parity', lits, rest[0])
+    if call == 'add_clause':
+        return cmd(pre + 'linear', lits, '>=', 1) if lits else None
+    return cmd(pre + call[len('add_'):], lits)
+
+
+MEANING = {
+    'add_loose_majority': lambda n: (lambda x: 2 * x >= n), 'add_loose_minority': lambda n: (lambda x: 2 * x <= n),
+    'add_strict_majority': lambda n: (lambda x: 2 * x > n), 'add_strict_minority': lambda n: (lambda x: 2 * x < n)}
+
+
+def comb_nodes(n, k):
+    """number of calls the extracted `combs` / `neq_clauses` make on n elements and parameter k (upper bound)"""
+    import math
+    if k >= n:
+        return 2 ** min(n, 64)
+    return sum(math.comb(n, j) for j in range(0, k + 1))
+
+
+def model_cost(n, op, k, fclass):
+    """(model steps, literals in the output) of add_linear / opb_linear on n literals"""
+    import math
+
+    def geq(k):
+        if k <= 0 or k > n:
+            return (1, 1)
+        return (comb_nodes(n, n - k + 1), math.comb(n, n - k + 1) * (n - k + 1))
+    if op == '!=':
+        if k < 0 or k > n:
+            return (1, 1)
+        return (comb_nodes(n, k), math.comb(n, k) * n)
+    if fclass == 'OPB':
+        return (n, n)
+    if op == '>=':
+        return geq(k)
+    if op == '>':
+        return geq(k + 1)
+    if op == '<=':
+        return geq(n - k)
+    if op == '<':
+        return geq(n - k + 1)
+    a, b = geq(k), geq(n - k)
+    return (a[0] + b[0], a[1] + b[1])
+
+
+def closed_form(lits, op, k):
+    """the single clause cnfgen documents for the constraints that say 'at least one literal is true' /
+    'not all literals are true'; None for every other constraint"""
+    n = len(lits)
+    if (op, k) in (('>=', 1), ('>', 0)):
+        return [list(lits)]
+    if (op, k) in (('<=', n - 1), ('<', n), ('!=', n)):
+        return [[-l for l in lits]]
+    return None
+
+
+def closed_job(ctx, add, CNF, OPB, mk, fclass, lits, op, k, closed, cont, kind):
+    def thunk():
+        F = CNF() if fclass == 'CNF' else OPB()
+        call_builder(F, fclass, 'add_linear', mk(), op, k)
+        return [list(c) for c in F]
+    if fclass == 'OPB' and op != '!=':
+        return     # one constraint: asked to the model
+    expect = closed if fclass == 'CNF' else [[(1, l) for l in c] + ['>=', 1] for c in closed]
+    stream = 'thresholds-long-closedform'
+    ctx.tally(stream + ': literal-list length', len(lits))
+    ctx.tally(stream + ': call', 'add_linear ' + op)
+    add(stream + '-' + fclass, dict(call='add_linear', cls=fclass, lits=lits, op=op, k=k, container=cont, oracle='closed form'),
+        cmd('add_linear', [], '>=', 0), thunk, (lambda r, expect=expect: expect),
+        (meaning_fails_cnf if fclass == 'CNF' else meaning_fails_opb, lits, (lambda x, k=k, op=op: ARITH[op](x, k))),
+        (stream, fclass, tuple(lits), op, k, cont), nontrivial=True)
+
+
+def large_streams(ctx, quick, add, CNF, OPB):
+    """jobs of the thresholds-* and shapes-* streams"""
+    rng = ctx.rng
+    post = {'CNF': (lambda r: r), 'OPB': (lambda r: [pbc_to_py(c) for c in r])}
+    fails = {'CNF': meaning_fails_cnf, 'OPB': meaning_fails_opb}
+    mkc = {'list': lambda l: (lambda: fresh(l)), 'tuple': lambda l: (lambda: tuple(fresh(l))),
+           'generator': lambda l: (lambda: (x for x in fresh(l))), 'range': lambda l: (lambda: range(l[0], l[-1] + 1))}
+
+    def job(stream, fclass, call, lits, rest, fun, cont='list', tag=None):
+        mk = mkc[cont](lits)
+        cl = CNF if fclass == 'CNF' else OPB
+
+        def thunk():
+            F = cl()
+            arg = mk()
+            before = list(arg) if not hasattr(arg, '__next__') else None
+            call_builder(F, fclass, call, arg, *rest)
+            if before is not None and list(arg) != before:
+                raise AssertionError('argument modified')
+            return [list(c) for c in F]
+        descr = dict(call=call, cls=fclass, lits=lits, container=cont)
+        if call == 'add_linear':
+            descr.update(op=rest[0], k=rest[1])
+        elif call == 'add_parity':
+            descr.update(constant=rest[0])
+        ctx.tally(stream + ': literal-list length', len(lits))
+        ctx.tally(stream + ': call', call + (' ' + rest[0] if call == 'add_linear' else ''))
+        if tag:
+            ctx.tally(stream + ': literal-list class', tag)
+        ctx.tally(stream + ': largest literal value', max([abs(l) for l in lits] + [0]))
+        add(stream + '-' + fclass, descr, model_cmd(fclass, call, lits, *rest), thunk, post[fclass],
+            (fails[fclass], lits, fun), (stream, fclass, call, tuple(lits), tuple(rest), cont), nontrivial=len(lits) >= 1)
+
+    def linear(stream, lits, op, k, classes=('CNF', 'OPB'), cont='list', tag=None):
+        for fclass in classes:
+            job(stream, fclass, 'add_linear', lits, (op, k), (lambda x, k=k, op=op: ARITH[op](x, k)), cont, tag)
+
+    def parity(stream, lits, const, classes=('CNF', 'OPB'), cont='list', tag=None):
+        for fclass in classes:
+            job(stream, fclass, 'add_parity', lits, (const,), (lambda x, const=const: x % 2 == const), cont, tag)
+
+    # ---- (a) parity on 15..18 literals: 2^(n-1) clauses, compared in order ----
+    if quick:
+        plan = [(15, 0, 'consecutive-from-250', ('CNF', 'OPB')), (16, 1, 'mixed', ('CNF',)), (17, 0, 'mixed-large-values', ('CNF',)),
+                (17, 1, 'consecutive', ('CNF',)), (16, 0, 'opposite', ('OPB',)), (17, 1, 'mixed', ('OPB',))]
+    else:
+        plan = [(n, c, kind, ('CNF', 'OPB') if (n <= 16 and kind in ('consecutive', 'opposite')) else ('CNF',))
+                for n in (15, 16, 17) for c in (0, 1) for kind in ('consecutive', 'mixed-large-values', 'repeated', 'opposite')]
+        plan += [(18, 0, 'consecutive', ('CNF',)), (18, 1, 'mixed-large-values', ('CNF',)),
+                 (17, 1, 'mixed', ('OPB',)), (17, 0, 'consecutive-from-250', ('OPB',))]
+    for n, c, kind, classes in plan:
+        lits = wide_lits(rng, n, kind)
+        cont = 'range' if kind.startswith('consecutive') and c == 1 else ('tuple' if n == 16 else 'list')
+        parity('thresholds-wide', lits, c, classes, cont, kind)
+
+    # ---- (b) add_linear on 15..18 literals, every operator; majorities ----
+    for n in (15, 16, 17, 18):
+        kinds = ['consecutive', 'mixed-large-values'] if quick else ['consecutive', 'mixed-large-values', 'opposite', 'repeated-large-values']
+        for kind in kinds:
+            lits = wide_lits(rng, n, kind)
+            conts = ['list', 'generator'] + (['range'] if kind == 'consecutive' else ['tuple'])
+            for op in OPS:
+                ks = [-1, 0, 1, 2, n - 2, n - 1, n, n + 1]
+                if not quick or (n in (16, 17) and op in ('>=', '<=', '==') and kind == 'consecutive') \
+                        or (n == 17 and op in ('!=', '<', '>') and kind != 'consecutive'):
+                    ks += [n // 2] if (quick or kind not in ('consecutive', 'repeated-large-values')) else [3, n // 2, n // 2 + 1, n - 3]
+                for k in ks:
+                    cont = conts[(k + n + len(op)) % len(conts)]
+                    linear('thresholds-wide', lits, op, k, cont=cont, tag=kind)
+            if n in (16, 17) or not quick:
+                for name in sorted(MEANING):
+                    for fclass in ('CNF', 'OPB'):
+                        if quick and kind != 'consecutive' and fclass == 'CNF':
+                            continue
+                        job('thresholds-wide', fclass, name, lits, (), MEANING[name](n), 'list', kind)
+
+    # ---- (c) '!=' and '==' on 17..20 literals with small constants ----
+    for n in (17, 18, 19, 20):
+        for kind in (['repeated-large-values'] if quick else ['consecutive', 'mixed', 'opposite', 'repeated-large-values']):
+            lits = wide_lits(rng, n, kind)
+            for op in ('!=', '=='):
+                for k in ([0, 1, 2, n - 1, n] if quick else [-1, 0, 1, 2, 3, n - 3, n - 2, n - 1, n, n + 1]):
+                    linear('thresholds-wide', lits, op, k, cont=('tuple' if k % 2 else 'list'), tag=kind)
+
+    # ---- (d) long literal lists, operators and constants whose output stays small ----
+    # The extracted `combs l k` explores sum_{j<=k} C(n,j) nodes (Comb.v is written for proofs, not speed), so the
+    # model is asked only where that is small; where the answer is ONE clause but the model would need 2^n steps
+    # ('>=' 1, '>' 0, '<=' n-1, '<' n, '!=' n) the expected clause is written down directly (stream
+    # thresholds-long-closedform: an oracle of the harness, not the model).
+    sizes = [64, 65, 129, 256, 257, 258, 1000] if quick else THRESHOLD_SIZES
+    for n in sizes:
+        for kind in ('consecutive', 'mixed', 'opposite'):
+            if quick and kind == 'opposite' and n not in (65, 257):
+                continue
+            lits = wide_lits(rng, n, kind)
+            plan = [(op, k) for op in OPS for k in (-1, 0, 1, 2, n - 2, n - 1, n, n + 1)]
+            for i, (op, k) in enumerate(plan):
+                if quick and kind != 'consecutive' and i % 3 != n % 3:
+                    continue
+                conts = ['list', 'tuple', 'generator'] + (['range'] if kind == 'consecutive' else [])
+                cont = conts[(i + n) % len(conts)]
+                for fclass in ('CNF', 'OPB'):
+                    cost, out = model_cost(n, op, k, fclass)
+                    if cost <= 300000 and out <= (150000 if quick else 1200000):
+                        linear('thresholds-long', lits, op, k, classes=(fclass,), cont=cont, tag=kind)
+                        continue
+                    closed = closed_form(lits, op, k)
+                    if closed is None:
+                        ctx.tally('thresholds-long: not run (model cost)', '%s %s' % (op, 'n%+d' % (k - n) if k > 2 else k))
+                        continue
+                    closed_job(ctx, add, CNF, OPB, mkc[cont](lits), fclass, lits, op, k, closed, cont, kind)
+            # the OPB majorities are one constraint each
+            for name in sorted(MEANING):
+                job('thresholds-long', 'OPB', name, lits, (), MEANING[name](n), 'list', kind)
+
+    # ---- (e) short lists of LARGE literal values (fresh int objects), everything ----
+    nlists = 10 if quick else 60
+    for i in range(nlists):
+        n = rng.randint(1, 5)
+        pool = [v + d for v in (255, 256, 257, 258, 300, 1000, 1025) for d in (0, 1)]
+        lits = [rng.choice([1, -1]) * rng.choice(pool) for _ in range(n)]
+        kind = 'large-values'
+        if n >= 2 and i % 3 == 0:
+            lits[-1] = lits[0]
+            kind = 'large-values-repeated'
+        elif n >= 2 and i % 3 == 1:
+            lits[-1] = -lits[0]
+            kind = 'large-values-opposite'
+        for op in OPS:
+            for k in range(-1, n + 2):
+                linear('shapes-values', lits, op, k, cont=('list', 'tuple', 'generator')[(k + i) % 3], tag=kind)
+        for c in (0, 1):
+            parity('shapes-values', lits, c, tag=kind)
+        for name in sorted(MEANING):
+            for fclass in ('CNF', 'OPB'):
+                job('shapes-values', fclass, name, lits, (), MEANING[name](n), 'list', kind)
+        if len(set(lits)) == n and sorted(lits) == list(range(min(lits), min(lits) + n)) and min(lits) > 0:
+            pass
+    # ranges that straddle 256 / 1000
+    for a, b in [(250, 262), (255, 258), (256, 257), (257, 258), (996, 1004)] if quick else \
+            [(250, 262), (255, 258), (256, 257), (257, 258), (996, 1004), (1020, 1030), (254, 272), (120, 135)]:
+        lits = list(range(a, b))
+        n = len(lits)
+        for op in OPS:
+            for k in sorted({-1, 0, 1, 2, n - 1, n, n + 1}):
+                if n > 8 and op in ('==', '<=', '<', '>', '>=') and 2 < k < n - 2:
+                    continue
+                linear('shapes-values', lits, op, k, cont='range', tag='range-across-256-or-1000')
+        for c in (0, 1):
+            if n <= 12:
+                parity('shapes-values', lits, c, cont='range', tag='range-across-256-or-1000')
+
+
+def history_stream(ctx, quick, CNF, OPB):
+    """one formula object receives a random sequence of builder calls; the same argument object is
+    passed to several calls.  The whole content is compared with the concatenation of the model's
+    outputs, the variable count with the largest variable mentioned."""
+    rng = ctx.rng
+    nseq = 40 if quick else 400
+    calls = ['add_linear', 'add_linear', 'add_linear', 'add_parity', 'add_clause'] + sorted(MEANING)
+    seqs = []
+    reqs = []
+    for si in range(nseq):
+        fclass = 'CNF' if si % 2 == 0 else 'OPB'
+        steps = []
+        shared = None
+        base = rng.choice([0, 0, 250, 1000])
+        for _ in range(rng.randint(2, 7)):
+            if shared is not None and rng.random() < 0.4:
+                lits = shared                      # the SAME list object again
+                reuse = True
+            else:
+                n = rng.randint(0, 5)
+                lits = fresh([rng.choice([1, -1]) * (base + rng.randint(1, 8)) for _ in range(n)])
+                shared = lits
+                reuse = False
+            call = rng.choice(calls)
+            if call == 'add_linear':
+                rest = (rng.choice(OPS), rng.randint(-1, len(lits) + 1))
+            elif call == 'add_parity':
+                rest = (rng.randint(0, 1),)
+            else:
+                rest = ()
+            steps.append((call, lits, rest, reuse))
+            if call == 'add_clause' and not lits:
+                reqs.append(None)
+            else:
+                reqs.append(model_cmd(fclass, call, list(lits), *rest))
+        seqs.append((fclass, steps))
+    replies = iter(ctx.model.batch([r for r in reqs if r is not None]))
+    ri = iter(reqs)
+    for si, (fclass, steps) in enumerate(seqs):
+        F = CNF() if fclass == 'CNF' else OPB()
+        expect = []
+        err = None
+        log = []
+        maxvar = 0
+        for call, lits, rest, reuse in steps:
+            req = next(ri)
+            if req is None:
+                rep = [[]] if fclass == 'CNF' else [[[], '>=', 1]]
+            else:
+                rep = next(replies)
+            if is_error(rep):
+                err = rep
+                break
+            expect += rep if fclass == 'CNF' else [pbc_to_py(c) for c in rep]
+            before = list(lits)
+            maxvar = max([maxvar] + [abs(l) for l in lits])
+            log.append(dict(call=call, lits=before, args=list(rest), same_object_as_previous=reuse))
+            ctx.tally('history: call', call)
+            r = outcome(call_builder, F, fclass, call, lits, *rest)
+            if r[0] != 'ok':
+                err = r
+                break
+            if list(lits) != before:
+                err = ('exc', 'AssertionError', 'argument modified')
+                break
+        descr = dict(call='sequence', cls=fclass, steps=log)
+        ctx.count('history-' + fclass, ('hist', si), True, sample=descr)
+        ctx.tally('history: sequence length', len(steps))
+        if err is not None:
+            ctx.disagreements_checked += 1
+            if is_error(err):
+                ctx.violation('correspondence', 'model error', dict(input=descr, model=err), False, site='model-error', cls='history')
+            else:
+                ctx.violation('counterexample', 'builder raised %s in a sequence of calls on one formula' % err[1],
+                              dict(input=descr, implementation=list(err[1:])), True, site=log[-1]['call'] + '-' + fclass,
+                              cls='history-raises-' + err[1])
+            continue
+        got = [[tuple(x) if isinstance(x, (list, tuple)) else x for x in c] for c in F]
+        exp = [[tuple(x) if isinstance(x, (list, tuple)) else x for x in c] for c in expect]
+        if got == exp and F.number_of_variables() == maxvar:
+            continue
+        ctx.disagreements_checked += 1
+        # which step went wrong?  replay the steps on fresh formulas: a difference there is a failing input of
+        # that builder (the fresh-formula streams look for the assignment); otherwise the history matters
+        ctx.violation('counterexample', 'a sequence of builder calls on ONE formula object does not produce the concatenation of '
+                      'what each call produces on its own (or a wrong variable count %r, expected %r)' % (F.number_of_variables(), maxvar),
+                      dict(input=descr, implementation=[list(c) for c in F], model=expect, first_difference=first_difference(got, exp)),
+                      True, site='sequence-' + fclass, cls='history')
+
+
 def run(ctx):
     import_impl()
     from cnfgen.formula.cnf import CNF
@@ -105,6 +641,9 @@ def run(ctx):
 
     def add(stream, descr, req, thunk, post, search, key, nontrivial=True):
         jobs.append((stream, descr, req, thunk, post, search, key, nontrivial))
+
+    # the corpus of large / rare inputs runs first
+    large_streams(ctx, quick, add, CNF, OPB)
 
     for cls_name, lits in lit_lists(ctx, quick):
         n = len(lits)
@@ -207,23 +746,29 @@ def run(ctx):
             else:
                 fn, lits, fun = search
                 try:
-                    witness = fn(lits, fun, got[1])
+                    witness = fn(lits, fun, got[1], expect)
                 except Exception as e:  # malformed output
                     witness = {'malformed-output': repr(e)}
             site = descr['call'] + '-' + descr.get('cls', '')
             if witness is not None:
                 ctx.violation('counterexample', 'the constraint built by %s does not mean its arithmetic condition' % descr['call'],
-                              dict(input=descr, assignment=witness, implementation=got[1], model=expect), True, site=site, cls='semantics')
+                              dict(input=descr, assignment=witness, implementation=clip(got[1]), model=clip(expect),
+                                   first_difference=first_difference(got[1], expect) if stream != 'normalize' else None),
+                              True, site=site, cls='semantics')
             else:
                 ctx.violation('correspondence', 'output differs from the model (Linear.v); theorems C04_* no longer cover the code',
-                              dict(input=descr, implementation=got[1], model=expect, correspondence='Linear.v <-> ' + descr['call']),
+                              dict(input=descr, implementation=clip(got[1]), model=clip(expect),
+                                   first_difference=first_difference(got[1], expect) if stream != 'normalize' else None,
+                                   correspondence='Linear.v <-> ' + descr['call']),
                               False, site=site, cls='order-or-shape')
         else:
             ctx.disagreements_checked += 1
             cont = descr.get('container', 'list')
             ctx.violation('counterexample', 'builder raised %s on a valid argument (given as %s)' % (got[1], cont),
-                          dict(input=descr, implementation=list(got[1:]), model=expect), True,
+                          dict(input=descr, implementation=list(got[1:]), model=clip(expect)), True,
                           site=descr['call'] + '-' + descr.get('cls', ''), cls='raises-%s-%s' % (got[1], cont))
+
+    history_stream(ctx, quick, CNF, OPB)
 
     from c04_mapping import run_mappings
     run_mappings(ctx)
